@@ -15,7 +15,7 @@ RULE = ('cases = hostile mix incl. rule-trigger snippets generated for every reg
         'test/failing_examples, (mostly) valid programs from the C10/C12 workload, cycled versions; contract on Grammar.iter_errors: no exception, tree signature unchanged, '
         'codes 901/903 with matching message prefix, range inside the file, <= 1 issue per line, every error leaf (outside '
         'error nodes) and the token after every outermost error node has an issue on its line, strict failure => non-empty '
-        'list, second call gives the same list. non-trivial = distinct input with >= 1 issue')
+        'list, second call gives the same list, and the list of each text is the same when re-listed after 40 other texts. non-trivial = distinct input with >= 1 issue')
 ASSUMPTIONS = ['an issue "on the line" of a zero-width INDENT/ERROR_DEDENT leaf is an issue on the line of the following leaf']
 _state = {}
 _fed = collections.Counter()
@@ -166,6 +166,23 @@ def _judge(ctx, v, code):
     except Exception:
         return
     w = {'version': v, 'code': code}
+    # cross-call determinism: the list of a text must not depend on what was listed in between
+    ring = _state.setdefault('ring', [])
+    ring.append((v, code, _issues_sig(first)))
+    if len(ring) >= 40:
+        _state['ring'] = []
+        for v0, code0, sig0 in reversed(ring):
+            try:
+                g0 = parso.load_grammar(version=v0)
+                again = _issues_sig(list(g0.iter_errors(g0.parse(code0))))
+            except Exception:
+                continue
+            ctx.count('relisted_after_other_calls')
+            if again != sig0:
+                ctx.violation('depends_on_earlier_calls', 'the issue list of a text changed after other texts were listed: %r then %r' % (
+                    [x for x in sig0 if x not in again][:2], [x for x in again if x not in sig0][:2]), {'version': v0, 'code': code0},
+                    others=[[a, b] for a, b, _ in ring][-12:])
+                break
     if _issues_sig(first) != _issues_sig(second):
         ctx.violation('nondeterministic', 'second call differs: %r vs %r' % (_issues_sig(first)[:3], _issues_sig(second)[:3]), w)
     try:
